@@ -11,7 +11,7 @@ use std::ffi::OsString;
 
 pub static DEF: PropDef = PropDef {
     id: "C11",
-    rule: "(a) grammar complement: token sequences over units {-true, -false, -print, -delete, '-exec rec {} ;', '-name x', '!', -a, -o, ',', '(', ')', a primary without its operand, an unterminated -exec, an unknown primary}: every sequence of <= 4 (thorough 5) units exhaustively, plus random sequences of <= 12 units obtained by mutating valid expressions (drop an operand, duplicate/drop an operator, unbalance a parenthesis, move '!' to the end). For every sequence that the reference recogniser (GNU token classes, DESIGN.md appendix A) classifies as a non-sentence: exit status != 0, a diagnostic on stderr, nothing on stdout, the rec recorder never ran, the file tree is unchanged (snapshot). (b) invalid operands: a table of unquestionably invalid operands per primary (-type, -xtype, -size, numeric tests, -perm, -regextype, -regex, -printf, -newerXY, -user, -group, -exec, -maxdepth, -mindepth) embedded at a random position of an otherwise valid expression containing -print, -delete and -exec rec: same oracle. (c) no panic / abort: arbitrary vectors over the full vocabulary of primaries with operands drawn from valid values, near-misses and arbitrary Unicode strings (multi-byte after '%' and '\\\\', huge numbers, stray brackets), over a tree with entries owned by ids without passwd/group entries, fifos, sockets, dangling and looping links, far-future and pre-epoch timestamps, and entries removed by an earlier action of the same expression (-delete -ls, -delete -printf %s): in process (catch_unwind; signature = panic location) and 1 in 8 through the built binary (status must be an ordinary exit: not 101, not 134, not a signal). Non-trivial = (a) a non-sentence of >= 3 units containing at least one complete primary; (b) always; (c) the vector parses and visits >= 1 entry, or contains a multi-byte operand. Distinct = distinct case JSON.",
+    rule: "(a) grammar complement: token sequences over units {-true, -false, -print, -delete, '-exec rec {} ;', '-name x', '!', -a, -o, ',', '(', ')', a primary without its operand, an unterminated -exec, an unknown primary}: every sequence of <= 4 (thorough 5) units exhaustively, plus random sequences of <= 12 units obtained by mutating valid expressions (drop an operand, duplicate/drop an operator, unbalance a parenthesis, move '!' to the end). For every sequence that the reference recogniser (GNU token classes, DESIGN.md appendix A) classifies as a non-sentence: exit status != 0, a diagnostic on stderr, nothing on stdout, the rec recorder never ran, the file tree is unchanged (snapshot). (b) invalid operands: a table of unquestionably invalid operands per primary (-type, -xtype, -size, numeric tests, -perm, -regextype, -regex, -printf, -newerXY, -user, -group, -exec, -maxdepth, -mindepth), and words that merely contain a primary's name (-zzNAME, -xyz-NAME, -NAMEx, '-follow -NAME' as one word, for every name of the vocabulary, followed by the operand that name would take), embedded at a random position of an otherwise valid expression containing -print, -delete and -exec rec: same oracle. (b') -regex/-iregex operands whose group delimiters do not balance: every string of <= 5 (thorough 6) tokens over {a, open group, close group, .*} in emacs, posix-basic, posix-extended and sed spelling (for posix-extended only those that leave a group open even when an unmatched ')' is read as ordinary): same oracle. (c) no panic / abort: arbitrary vectors over the full vocabulary of primaries with operands drawn from valid values, near-misses and arbitrary Unicode strings (multi-byte after '%' and '\\\\', huge numbers, stray brackets, terminated but malformed bracket expressions (reversed ranges, unknown classes, classes as range ends, equivalence classes, collating symbols), dates with digits of other scripts), over a tree with entries owned by ids without passwd/group entries, fifos, sockets, dangling and looping links, far-future and pre-epoch timestamps, and entries removed by an earlier action of the same expression (-delete -ls, -delete -printf %s): in process (catch_unwind; signature = panic location) and 1 in 8 through the built binary (status must be an ordinary exit: not 101, not 134, not a signal). Non-trivial = (a) a non-sentence of >= 3 units containing at least one complete primary; (b) always; (c) the vector parses and visits >= 1 entry, or contains a multi-byte operand. Distinct = distinct case JSON.",
     assumptions: &[
         "one-directional on purpose: acceptance and meaning of valid sentences is C01's subject",
         "files created by -fprint*/-fls at parse time are not counted as 'an action' (the statement lists visiting, printing, executing, deleting)",
@@ -342,6 +342,23 @@ fn bad_operands() -> Vec<(Vec<String>, &'static str)> {
     v.push((vec![s("-name")], "missing-operand"));
     v.push((vec![s("-files0-from")], "missing-operand"));
     v.push((vec![s("-files0-from"), s("c/missing-list")], "-files0-from"));
+    // words that are not primaries although a primary's name is part of them; the operand that the
+    // primary would take follows, so that a parser that recognises the embedded name accepts the line
+    for voc in VOC {
+        let operand: Vec<String> = voc
+            .ops
+            .chars()
+            .map(|k| match k {
+                'g' => "*", 'r' => ".*", 't' => "f", 'n' => "1", 'z' => "1k", 'm' => "644", 'F' => "c/ref", 'f' => "%p", 'D' => "jan 01, 2025", 'T' => "emacs", 'u' => "root", 'G' => "root", _ => "1",
+            })
+            .map(s)
+            .collect();
+        for word in [format!("-zz{}", &voc.name[1..]), format!("-xyz{}", voc.name), format!("{}x", voc.name), format!("-follow {}", voc.name)] {
+            let mut e = vec![word];
+            e.extend(operand.iter().cloned());
+            v.push((e, "unknown-primary"));
+        }
+    }
     v
 }
 
@@ -393,10 +410,95 @@ fn check_operand(ctx: &mut Ctx, c: &OperandCase) -> Outcome {
             args.extend(bad.iter().cloned());
         }
     }
-    if let Some(f) = must_be_rejected(ctx, &args, "invalid operand", &format!("invalid-operand:{label}:{}", bad.get(1).map(|x| x.as_str()).unwrap_or("<none>"))) {
+    let sig_tail = if *label == "unknown-primary" {
+        // keyed by how the word relates to a real name, not by the word
+        let w = &bad[0];
+        let newer_xy = |t: &str| t.len() >= 8 && t[..t.len() - 2].ends_with("-newer") && "aBcm".contains(&t[t.len() - 2..t.len() - 1]) && "aBcmt".contains(&t[t.len() - 1..]);
+        let shape = if w.ends_with('x') { "name-with-a-letter-appended" } else if newer_xy(w) { "text-before-newerXY" } else { "text-before-a-name" };
+        format!("unknown-primary:{shape}")
+    } else {
+        format!("invalid-operand:{label}:{}", bad.get(1).map(|x| x.as_str()).unwrap_or("<none>"))
+    };
+    if let Some(f) = must_be_rejected(ctx, &args, if *label == "unknown-primary" { "unknown primary" } else { "invalid operand" }, &sig_tail) {
         return f;
     }
     Pass::new(true).class("invalid-operand-rejected").class(label).sample(json!({"cmdline": format!("find {}", args.join(" "))})).ok()
+}
+
+/// (b') -regex operands whose group delimiters do not balance
+#[derive(Serialize, Deserialize, Debug, Clone)]
+pub struct ParenCase {
+    /// 0 'a', 1 open group, 2 close group, 3 '.*'
+    pub toks: Vec<u8>,
+    /// 0 default (emacs), 1 posix-basic, 2 posix-extended, 3 sed
+    pub syntax: u8,
+    pub iregex: bool,
+}
+
+/// None: balanced (not an invalid operand on this account)
+fn unbalanced_regex(c: &ParenCase) -> Option<String> {
+    let ere = c.syntax == 2;
+    let mut strict_bad = false;
+    let (mut depth, mut lenient_depth) = (0i32, 0i32);
+    let mut s = String::new();
+    for t in &c.toks {
+        match t {
+            0 => s.push('a'),
+            1 => {
+                s.push_str(if ere { "(" } else { "\\(" });
+                depth += 1;
+                lenient_depth += 1;
+            }
+            2 => {
+                s.push_str(if ere { ")" } else { "\\)" });
+                depth -= 1;
+                if depth < 0 {
+                    strict_bad = true;
+                    depth = 0;
+                }
+                // an unmatched ')' may be an ordinary character in an extended expression
+                if lenient_depth > 0 {
+                    lenient_depth -= 1;
+                }
+            }
+            _ => s.push_str(".*"),
+        }
+    }
+    let invalid = if ere { lenient_depth > 0 } else { strict_bad || depth > 0 };
+    invalid.then_some(s)
+}
+
+fn check_paren(ctx: &mut Ctx, c: &ParenCase) -> Outcome {
+    let Some(pattern) = unbalanced_regex(c) else { return Pass::discard("group delimiters balance") };
+    ctx.fresh_case_dir();
+    base_tree().build();
+    let rec = rec_bin().to_string_lossy().into_owned();
+    let s = |x: &str| x.to_string();
+    let mut args = vec![s("c/r"), s("-print")];
+    let ty = ["", "posix-basic", "posix-extended", "sed"][c.syntax as usize % 4];
+    if !ty.is_empty() {
+        args.push(s("-regextype"));
+        args.push(s(ty));
+    }
+    args.push(s(if c.iregex { "-iregex" } else { "-regex" }));
+    args.push(pattern.clone());
+    args.extend([s("-delete"), s("-exec"), rec, s("{}"), s(";")]);
+    let closes_first = {
+        let mut d = 0i32;
+        c.toks.iter().any(|t| {
+            d += match t {
+                1 => 1,
+                2 => -1,
+                _ => 0,
+            };
+            d < 0
+        })
+    };
+    let shape = if closes_first && c.toks.iter().filter(|t| **t == 1).count() == c.toks.iter().filter(|t| **t == 2).count() { "close-before-open" } else if closes_first { "stray-close" } else { "unclosed-group" };
+    if let Some(f) = must_be_rejected(ctx, &args, "invalid operand", &format!("invalid-operand:-regex:unbalanced-group:{shape}:{}", if ty.is_empty() { "emacs" } else { ty })) {
+        return f;
+    }
+    Pass::new(c.toks.len() >= 3).class("invalid-operand-rejected").class("regex-unbalanced-group").class(shape).sample(json!({"cmdline": format!("find {}", args.join(" "))})).ok()
 }
 
 // ---------------------------------------------------------------------------
@@ -440,6 +542,59 @@ const VOC: &[Voc] = &[
     Voc { name: "-maxdepth", ops: "d" }, Voc { name: "-mindepth", ops: "d" }, Voc { name: "-files0-from", ops: "F" },
 ];
 
+/// a date operand in the implementation's "mon dd, yyyy hh:mm:ss" shape (parts optional) whose
+/// digits are, here and there, decimal digits of another script, and whose values may be out of range
+fn gen_date_nearmiss(g: &mut Gen) -> String {
+    let digit = |g: &mut Gen, d: u32| -> char {
+        match g.weighted(&[8, 1, 1, 1]) {
+            0 => char::from_digit(d, 10).unwrap(),
+            1 => char::from_u32(0x0660 + d).unwrap(), // Arabic-Indic
+            2 => char::from_u32(0xFF10 + d).unwrap(), // fullwidth
+            _ => char::from_u32(0x0966 + d).unwrap(), // Devanagari
+        }
+    };
+    let num = |g: &mut Gen, n: u32, width: usize| -> String {
+        let t = format!("{n:0width$}");
+        t.chars().map(|c| digit(g, c.to_digit(10).unwrap())).collect()
+    };
+    let mut s = String::new();
+    if g.chance(5, 6) {
+        s.push_str(g.pick(&["jan", "feb", "dec", "Jan", "xyz", "j\u{e4}n", "日本語", "١٢٣"]));
+        s.push(' ');
+        let day = g.pick(&[1u32, 9, 28, 29, 30, 31, 32, 0, 99]);
+        s.push_str(&num(g, day, 2));
+    }
+    if g.chance(5, 6) {
+        s.push_str(", ");
+        let year = g.pick(&[2025u32, 1970, 1969, 0, 1, 9999, 1234, 2024]);
+        s.push_str(&num(g, year, 4));
+    }
+    if g.chance(1, 2) {
+        s.push(' ');
+        let (h, m, sec) = (g.pick(&[0u32, 23, 24, 12, 99]), g.pick(&[0u32, 59, 60]), g.pick(&[0u32, 1, 59, 60, 61]));
+        s.push_str(&format!("{}:{}:{}", num(g, h, 2), num(g, m, 2), num(g, sec, 2)));
+    }
+    s
+}
+
+/// a bracket expression that is terminated but odd inside (reversed ranges, unknown classes, a class
+/// as a range end, equivalence classes and collating symbols, stray '!' '^' '-' ']' '\\'), with optional
+/// text around it: patterns that a translation to another pattern language may get wrong
+fn gen_bracket_soup(g: &mut Gen) -> String {
+    let mut s = String::new();
+    s.push_str(g.pick(&["", "", "x", "*", "?", "\\"]));
+    for _ in 0..g.usize_in(1, 2) {
+        s.push('[');
+        s.push_str(g.pick(&["", "", "!", "^", "]", "!]", "^]"]));
+        for _ in 0..g.usize_in(0, 4) {
+            s.push_str(g.pick(&["a", "z", "0", "9", "-", "-", "!", "^", "[", "\\", ".", "*", "é", "z-a", "9-0", "a-z", "--!", "!--", "a-", "-a", "[:alpha:]", "[:foo:]", "[:", ":]", "[=a=]", "[=", "[.a.]", "[.-.]", "[.hyphen.]", "[.", "a-[:alpha:]", "[:alpha:]-z", "a-c-e"]));
+        }
+        s.push(']');
+    }
+    s.push_str(g.pick(&["", "", "y", "*", "]", "["]));
+    s
+}
+
 fn gen_operand(g: &mut Gen, kind: char) -> String {
     let valid: &[&str] = match kind {
         'g' => &["*", "a*", "?", "[ab]", "x", "*.c", "[[:alpha:]]*", "\\*", "c/r/*", "no*where"],
@@ -462,6 +617,10 @@ fn gen_operand(g: &mut Gen, kind: char) -> String {
             // near-miss or arbitrary text; file operands stay inside the sandbox
             if kind == 'F' {
                 g.pick(&["c/ref", "c/missing", "c/out1", "c/r/lnk_dangling", "c/r/lnk_loop"]).to_string()
+            } else if kind == 'D' && g.bool() {
+                gen_date_nearmiss(g)
+            } else if (kind == 'g' || kind == 'r') && g.chance(2, 5) {
+                gen_bracket_soup(g)
             } else {
                 let mut s = String::new();
                 for _ in 0..g.usize_in(1, 3) {
@@ -709,7 +868,18 @@ fn probes() -> Vec<VecCase> {
         mk(vec!["-printf", "%99999999999999999999999d"]),
         mk(vec!["-name", "[[:"]),
         mk(vec!["-name", "[[."]),
+        mk(vec!["-name", "[z-a]"]),
+        mk(vec!["-iname", "x[9-0]y"]),
+        mk(vec!["-path", "[--!]*"]),
+        mk(vec!["-lname", "[[:foo:]]"]),
+        mk(vec!["-ilname", "[a-[:alpha:]]"]),
+        mk(vec!["-false", "-a", "-name", "[[=a=]b-a]"]),
+        mk(vec!["-regex", "[z-a]"]),
+        mk(vec!["-regex", "[[:foo:]]"]),
         mk(vec!["-newermt", "jan ０１, 2025"]),
+        mk(vec!["-newermt", "jan 01, ２０２５"]),
+        mk(vec!["-newerat", "jan 01, 2025 ００:00:00"]),
+        mk(vec!["-newerct", ", ١٢٣٤"]),
         mk(vec!["-fprintf"]),
         mk(vec!["-fprintf", "c/out1"]),
         mk(vec!["-a"]),
@@ -762,6 +932,29 @@ fn run(w: &mut Worker) {
         }
     }
     w.exhaustive("operands", "every entry of the invalid-operand table x 5 positions in an expression with -print, -delete and -exec rec", ops.into_iter(), check_operand);
+    let maxtok = w.tier.pick(5usize, 6);
+    let mut parens: Vec<ParenCase> = vec![];
+    let mut frontier: Vec<Vec<u8>> = vec![vec![]];
+    for _ in 0..maxtok {
+        let mut next = vec![];
+        for f in &frontier {
+            for t in 0..4u8 {
+                let mut v = f.clone();
+                v.push(t);
+                next.push(v);
+            }
+        }
+        for toks in &next {
+            for syntax in 0..4u8 {
+                for iregex in [false, true] {
+                    parens.push(ParenCase { toks: toks.clone(), syntax, iregex });
+                }
+            }
+        }
+        frontier = next;
+    }
+    w.regress::<ParenCase>("operands-regex-groups", check_paren);
+    w.exhaustive("operands-regex-groups", &format!("every string of <= {maxtok} tokens over {{a, open-group, close-group, .*}} whose group delimiters do not balance (for posix-extended: that leaves a group open even if an unmatched ')' is read as an ordinary character) x emacs / posix-basic / posix-extended / sed x -regex / -iregex"), parens.into_iter(), check_paren);
     // (c)
     w.exhaustive("nopanic-probes", "deterministic probes of the shapes the statement names", probes().into_iter(), check_vec);
     w.random("nopanic", w.tier.pick(40_000, 600_000), (30, 120), 600, gen_vec, check_vec);
@@ -770,6 +963,8 @@ fn run(w: &mut Worker) {
 fn replay(w: &mut Worker, sub: &str, v: Value) -> Outcome {
     if sub.starts_with("grammar") {
         check_seq(&mut w.ctx, &decode(v))
+    } else if sub.starts_with("operands-regex-groups") {
+        check_paren(&mut w.ctx, &decode(v))
     } else if sub.starts_with("operands") {
         check_operand(&mut w.ctx, &decode(v))
     } else {
